@@ -116,7 +116,7 @@ def make_cfg(seed, prop, tier):
         # bounded-liveness diagnostic: a quarter of the runs continue after the last fault until
         # every client has converged on the authority's document (or a step cap is hit)
         "drain": rng.random() < 0.25,
-        "drain_events": 300 if prop in ("C08", "C10") else 1500,
+        "drain_events": (120 if prop == "C08" else 300) if prop in ("C08", "C10") else 1500,
         "fault_kinds": sorted(enabled),
     }
     # second tenant of the same process (a document under a twin schema: same names, other mark
@@ -127,6 +127,8 @@ def make_cfg(seed, prop, tier):
     if prof.get("tenant") and rng2.random() < 0.6:
         cfg["tenant_p"] = rng2.choice([0.08, 0.15, 0.25])
         cfg["tenant_doc"] = gen.rand_doc(rng2, schemas.twin(schema_name), maxdepth=rng2.choice([3, 3, 4])).to_json()
+    if prop == "C08":
+        cfg["size_cap"] = 150  # every mapping law is evaluated at every position of every history
     # size knob of the C08 mix: one run in twenty also handles one very long document
     cfg["bigdoc"] = bool(prop == "C08" and rng2.random() < 0.05)
     # faults stop for the last quarter of virtual activity: convergence is then a diagnostic
